@@ -268,6 +268,34 @@ def rule_unused(ck: Check, repo: Repo) -> None:
         r.violation(q, "unused filter", f"filter {facts['filter']} differs from ¬used(l) ∧ ¬used(l+) at {bad}", repo.loc(fn))
 
 
+def _recursive_licenses_scan(text: str) -> bool:
+    """glob.iglob / glob.glob over <root>/LICENSES/** with recursive=True (str / Path / glob.escape wrappers ignored)."""
+    try:
+        c = ast.parse(text, mode="eval").body
+    except SyntaxError:
+        return False
+    if not (isinstance(c, ast.Call) and ast.unparse(c.func) in ("glob.iglob", "glob.glob") and c.args):
+        return False
+    if not any(k.arg == "recursive" and isinstance(k.value, ast.Constant) and k.value.value is True for k in c.keywords):
+        return False
+
+    class Strip(ast.NodeTransformer):
+        def visit_Call(self, n):
+            self.generic_visit(n)
+            if ast.unparse(n.func) in ("str", "Path", "PurePath", "glob.escape", "os.fspath") and len(n.args) == 1 and not n.keywords:
+                return n.args[0]
+            if ast.unparse(n.func) == "os.path.join" and n.args and not n.keywords:
+                out = n.args[0]
+                for a in n.args[1:]:
+                    out = ast.BinOp(left=out, op=ast.Div(), right=a)
+                return out
+            return n
+
+    pat = ast.unparse(Strip().visit(c.args[0]))
+    return pat in ("self.root / 'LICENSES/**'", "self.root / 'LICENSES' / '**'")
+
+
+
 def rule_scan(ck: Check, repo: Repo) -> None:
     r = ck.rule("R4", "LICENSES/** scan: identifier table, extension-less detection, duplicates, recursion")
     q = f"{PJ}._identifier_of_license"
@@ -355,7 +383,7 @@ def rule_scan(ck: Check, repo: Repo) -> None:
         scan = [e for c, e in _flat(leaf.events) if e[0] == "scan"]
         name = show_valuation({k.split("::")[-1][:40]: v for k, v in d.items()})
         r.instance("scan:" + name, {"cell": name, "effects": [repr(e)[:80] for e in ev]})
-        if not scan or scan[0][1] != "glob.iglob(str(self.root / 'LICENSES/**'), recursive=True)":
+        if not scan or not _recursive_licenses_scan(scan[0][1]):
             r.violation(q2, "scan is not recursive over LICENSES/**", f"{scan}", repo.loc(f2))
         eff = [e for e in ev if e[0] != "element-end"]
         end = [e for e in ev if e[0] == "element-end"]
